@@ -45,7 +45,10 @@ def infeasible(it):
 def run_paths(rep, name, cfg, modpath, fn, body, max_paths=512, extra=None, **fsym_kw):
     """body(it) -> list of VCs. Records one harness entry in rep."""
     t0 = time.time()
-    mod = module(modpath)
+    if isinstance(modpath, list):
+        from checks.c14 import linked
+        mod = linked(modpath)
+    else: mod = module(modpath)
     decisions = []
     paths = []; status = "ok"; why = ""
     goals = []
